@@ -217,3 +217,7 @@ func WaitFor(flag *bool) {
 
 // Finished reports whether harness thread id (in spawn order, 1-based) has returned.
 func Finished(id int) bool { return false }
+
+// Unfinished returns the number of other harness threads (goroutines started by the
+// harness or by the code under test) that have not returned. Natively it is unknown (0).
+func Unfinished() int { return 0 }
